@@ -1,4 +1,7 @@
 From Coq Require Import ExtrOcamlBasic.
 From BP7 Require Import Base.Prelude Run.Main.
 Extraction Language OCaml.
-Extraction "model.ml" run_line Byte.of_N Byte.to_N.
+(* stable names for the two conversions the OCaml driver needs *)
+Definition byte_of_N (n : N) : option byte := Byte.of_N n.
+Definition byte_to_N (b : byte) : N := Byte.to_N b.
+Extraction "model.ml" run_line byte_of_N byte_to_N.
